@@ -354,6 +354,7 @@ def kani_base(h, playback=False):
     base = ["cargo", "kani", "-Z", "stubbing", "-Z", "unstable-options"]
     if playback:
         base += ["-Z", "concrete-playback", "--concrete-playback=print"]
+    base += ["--features", "m_" + h.name.split("::")[0]]
     base += ["--harness", h.name, "--exact", "--target-dir", target_dir(h.feature)]
     return base
 
@@ -501,7 +502,7 @@ def native_playback(h, test_src, workdir):
     log = os.path.join(workdir, "playback.log")
     cmd = ["cargo", "kani", "playback", "-Z", "concrete-playback", "--", tname, "--exact", "--nocapture"]
     # test path inside the crate is <mod>::<tname>
-    cmd = ["cargo", "kani", "playback", "-Z", "concrete-playback", "--", mod + "::" + tname, "--exact", "--nocapture"]
+    cmd = ["cargo", "kani", "playback", "-Z", "concrete-playback", "--features", "m_" + mod, "--", mod + "::" + tname, "--exact", "--nocapture"]
     rc, to, secs = _run(cmd, dst, 900, log, env=env)
     txt = open(log, errors="replace").read()
     ran = re.search(r"running 1 test", txt) is not None
